@@ -2741,7 +2741,7 @@ def get_byte_map(string_map):
 
     # assign byte_map_keys, byte_map_key_indices
     byte_map_keys = np.zeros(total_bytes_keys, dtype=np.uint8)
-    byte_map_key_indices = np.zeros(len(sorted_string_map)+1, dtype=np.uint8)
+    byte_map_key_indices = np.zeros(len(sorted_string_map)+1, dtype=np.int64)
     
     idx_pointer = 0
     for i, (_, b_key, _) in enumerate(sorted_string_key):   
